@@ -348,7 +348,10 @@ namespace opensmt {
         return strcmp(o_name, o_produce_inter) == 0 || strcmp(o_name, o_produce_proofs) == 0
           || strcmp(o_name, o_sat_pure_lookahead) == 0 || strcmp(o_name, o_sat_lookahead_split) == 0
           || strcmp(o_name, o_sat_picky) == 0 || strcmp(o_name, o_sat_scatter_split) == 0
-          || strcmp(o_name, o_ghost_vars) == 0;
+          || strcmp(o_name, o_ghost_vars) == 0
+          // the proof needed for cores is only recorded if the solver was created for it, and the scopes of names and
+          // declarations are opened and closed according to the mode that held at the push
+          || strcmp(o_name, o_produce_unsat_cores) == 0 || strcmp(o_name, o_global_declarations) == 0;
     }
 
     void          insertOption(const char* o_name, SMTOption* o) {
